@@ -214,6 +214,51 @@ def s_iter_next(I, w, frame, site, fn, args, term):
     return out
 
 
+def s_skip(I, w, frame, site, fn, args, term):
+    # `slice.iter().skip(n)`: the same iterator n elements further (or exhausted).  `Skip` is lazy, but a slice iterator has no
+    # side effect, so advancing at once is indistinguishable
+    it, n = args[0], args[1]
+    if it[0] != 'iter' or len(it) != 4 or n[0] != 'int':
+        return None
+    out = []
+    w1 = w.fork()
+    if I.assume(w1, ('cmp', 'le', it[2] + n[1], it[3]), True):
+        out.append((w1, ('iter', it[1], it[2] + n[1], it[3])))
+    w2 = w.fork()
+    if I.assume(w2, ('cmp', 'lt', it[3], it[2] + n[1]), True):
+        out.append((w2, ('iter', it[1], it[3], it[3])))
+    return out
+
+
+def s_zip(I, w, frame, site, fn, args, term):
+    a, b = args[0], args[1]
+    if a[0] != 'iter' or b[0] != 'iter' or len(a) != 4 or len(b) != 4:
+        return None
+    return [(w, ('agg', (a, b)))]
+
+
+def s_zip_next(I, w, frame, site, fn, args, term):
+    # Zip of two slice iterators: a pair while both have an element left, None afterwards (the adaptor's side-effect subtleties
+    # do not exist for slice iterators)
+    r = args[0]
+    if r[0] != 'ref':
+        return None
+    z = I.read(w, r[1])
+    if z[0] != 'agg' or len(z[1]) != 2 or z[1][0][0] != 'iter' or z[1][1][0] != 'iter':
+        return None
+    a, b = z[1]
+    out = []
+    for exhausted in (('cmp', 'le', a[3], a[2]), ('cmp', 'le', b[3], b[2])):
+        w1 = w.fork()
+        if I.assume(w1, exhausted, True):
+            out.append((w1, ('enum', ((0, ()),))))
+    w2 = w.fork()
+    if I.assume(w2, ('cmp', 'lt', a[2], a[3]), True) and I.assume(w2, ('cmp', 'lt', b[2], b[3]), True):
+        I.write(w2, r[1], ('agg', (('iter', a[1], a[2] + 1, a[3]), ('iter', b[1], b[2] + 1, b[3]))))
+        out.append((w2, ('enum', ((1, (('agg', (('ref', a[1].ext(('i', a[2]))), ('ref', b[1].ext(('i', b[2]))))),)),))))
+    return out
+
+
 def s_array_into_iter(I, w, frame, site, fn, args, term):
     # `for x in [a, b, c]`: the array is moved into an iterator that hands its elements out by value, in order
     a = args[0]
@@ -274,6 +319,12 @@ def s_fold(I, w, frame, site, fn, args, term):
         clo = args[2]
         cty = term['arg_tys'][2] if len(term.get('arg_tys', [])) > 2 else None
         body = I.facts.bodies.get(cty.get('name')) if cty and cty.get('k') == 'closure' else None
+        if body is None and cty and cty.get('k') == 'closure':
+            # a closure made by an adaptor of core (`map(f).sum()` folds with `map_fold(f, add)`): its monomorphised body was
+            # dumped with the other core callees; taken only when there is exactly one instance of it
+            tail = cty.get('name', '?').split('::', 1)[-1]            # `std::..` in type names, `core::..` in definition paths
+            cands = [b for b in I.facts.ext.values() if b.key.startswith('ext:') and b.key.split('::', 1)[-1] == tail]
+            body = cands[0] if len(cands) == 1 else None
         if body is not None:
             worlds = [(w, args[1])]
             for i in range(it[2].const, it[3].const):
@@ -454,6 +505,9 @@ def s_eq(I, w, frame, site, fn, args, term, negate=False):
             res = ('var', b[1], frozenset(sa))
         elif va == vb and _ground(va):
             res = ('c', True)
+        elif _int_payload_eq(va, vb) is not None:
+            # both sides are the same variant with integer payloads (`Some(x) == Some(y)`): the payloads are equal
+            res = _int_payload_eq(va, vb)
         elif _zero_const_variant(vb) is not None or _zero_const_variant(va) is not None:
             # comparison with a constant `Variant([0; n])`: the variant test and "all bytes are zero"; bytes are >= 0, so
             # all-zero is the single linear fact sum == 0 — the same fact a byte-wise pattern match establishes
@@ -487,6 +541,20 @@ def s_eq(I, w, frame, site, fn, args, term, negate=False):
     if negate:
         res = ('not', res) if res[0] != 'c' else ('c', not res[1])
     return [(w, ('bool', res))]
+
+
+def _int_payload_eq(va, vb):
+    """the conjunction of payload equalities when both values are one and the same variant carrying integers only"""
+    if len(va[1]) != 1 or len(vb[1]) != 1 or va[1][0][0] != vb[1][0][0]:
+        return None
+    fa, fb = va[1][0][1], vb[1][0][1]
+    if not fa or len(fa) != len(fb) or not all(x[0] == 'int' and y[0] == 'int' for x, y in zip(fa, fb)):
+        return None
+    res = None
+    for x, y in zip(fa, fb):
+        c = ('cmp', 'eq', x[1], y[1])
+        res = c if res is None else ('and', res, c)
+    return res
 
 
 def _zero_const_variant(v):
@@ -794,6 +862,9 @@ TABLE = {
     'std::array::iter::into_iter': s_array_into_iter,
     '<std::array::IntoIter as std::iter::Iterator>::next': s_array_iter_next,
     '<std::slice::Iter as std::iter::Iterator>::fold': s_fold,
+    'std::iter::Iterator::skip': s_skip,
+    'std::iter::Iterator::zip': s_zip,
+    '<std::iter::Zip as std::iter::Iterator>::next': s_zip_next,
     'core::num::from_be_bytes': s_from_be_bytes,
     'core::num::to_be_bytes': s_to_be_bytes,
     'core::num::from_be': s_identity,
